@@ -167,3 +167,19 @@ Proof.
   apply (f_equal (@rev N)) in H. rewrite rev_involutive, rev_app_distr in H. simpl in H.
   eapply lstrip_char_hd; eassumption.
 Qed.
+
+(* str.strip() on text whose code points are < 256: ASCII white space, FS/GS/RS/US, NEL, NBSP *)
+Definition str_ws (c : N) : bool :=
+  is_ws c || ((28 <=? c) && (c <=? 31)) || (c =? 133) || (c =? 160).
+Fixpoint str_lstrip (b : bytes) : bytes :=
+  match b with c :: r => if str_ws c then str_lstrip r else b | [] => [] end.
+Definition str_strip (b : bytes) : bytes := rev (str_lstrip (rev (str_lstrip b))).
+
+(* lexicographic < on byte / code point strings (Python's str and bytes comparison) *)
+Fixpoint bytes_ltb (a b : bytes) : bool :=
+  match a, b with
+  | [], [] => false
+  | [], _ :: _ => true
+  | _ :: _, [] => false
+  | x :: a', y :: b' => if x <? y then true else if y <? x then false else bytes_ltb a' b'
+  end.
